@@ -19,7 +19,7 @@ def Q(checks, timeout=240, shards=1, **kw):
     return d
 
 
-HOOK_COMMITS = ["df50802", "215f985", "cfbf92c"]
+HOOK_COMMITS = ["df50802", "215f985", "cfbf92c", "4ab7d4f"]
 
 NOT_APPLICABLE = {}
 
@@ -106,17 +106,20 @@ PROPS = {
     "C19": dict(
         pkg="c19", level="exploration",
         tests=[T("TestC19", Q(50000), Q(200000, timeout=900, shards=8)),
+               T("TestC19Events", Q(40000), Q(200000, timeout=900, shards=8)),
                T("TestC19Conc", Q(400, timeout=300, shrinktime="20s"), Q(3000, timeout=900, shards=4, shrinktime="60s")),
                T("TestC19Engine", Q(8, timeout=400, shards=2, shrinktime="20s"), Q(60, timeout=1800, shards=4, shrinktime="60s"))],
         rule="Per shard (1-3 shards) a consistent world is drawn (term -> at most one leader, config-change index -> one membership, as Raft guarantees) and 1-8 updates sampled from it "
              "(incl. 'leader unknown' at any term, stale terms); the multiset is delivered to the real view in two independent random orders with duplicates, split into batches of 1-4, "
              "a third of the batches routed through an intermediate view's LocalState -> JSON -> MergeRemoteState. Oracle: both final views == model (max-term leader, max-CCI membership); after every "
              "delivery the retained leader's term never decreases and is never replaced by 'no leader'. Non-trivial iff some shard saw >=3 distinct terms AND a no-leader update at or above the "
-             "retained leader's term. TestC19Conc: the same update multisets delivered to ONE view by 2-4 goroutines at once (each update spread over 50-1000 shard ids so that merges overlap), 6 rounds per case, plus a reader goroutine: after all deliveries every record == model (a lost update shows), the reader never sees a term decrease (timing-free oracle, scheduling decides only how often deliveries overlap). TestC19Engine (consequence clause, real wiring): a real 3-node regatta cluster in one process (three storage.Engine instances, one metadata raft group, the table replicated on all nodes, raft + memberlist gossip over loopback); "
+             "retained leader's term. TestC19Events: the same updates reach ONE view shared by a real cluster.Cluster value (no memberlist behind it) and its memberlist delegate through every writer of the view: "
+             "direct merges, another node's gossiped state, and the node's own raft information re-read on Notify / NotifyJoin / NotifyLeave / NotifyUpdate / LocalState, with membership events naming any node id "
+             "(also the retained leader's) interspersed; same oracle; non-trivial iff a member with the node id of a leader leaves AND gossip is merged after the node read own raft information. TestC19Conc: the same update multisets delivered to ONE view by 2-4 goroutines at once (each update spread over 50-1000 shard ids so that merges overlap), 6 rounds per case, plus a reader goroutine: after all deliveries every record == model (a lost update shows), the reader never sees a term decrease (timing-free oracle, scheduling decides only how often deliveries overlap). TestC19Engine (consequence clause, real wiring): a real 3-node regatta cluster in one process (three storage.Engine instances, one metadata raft group, the table replicated on all nodes, raft + memberlist gossip over loopback); "
              "6-30 actions: Put/Range on any node (response headers recorded), leadership transfers of the table shard, node restarts, pauses. Oracle: per node the term reported for the shard never decreases over its responses, shard and replica id of the header are right, one term is never reported with two leaders, "
              "whether every node ends up reporting the shard's actual (term, leader) after re-reading its own raft information is observed and labelled, not asserted (staleness is not a statement of C19). Non-trivial iff headers of >=2 terms were observed. Distinct = sha256 of case JSON.",
         assumptions=["updates come from a consistent Raft world (one leader per term, one membership per config-change index)",
-                     "view accessed through the add-only verif hook storage/cluster/export_verif.go"],
+                     "view accessed through the add-only verif hooks storage/cluster/export_verif.go and export_cluster_verif.go"],
         technique="property-based testing of algebraic laws (commutativity, associativity, idempotence of merge) + monotonicity invariant over the delivery history",
         level_text="Randomised exploration of update multisets and delivery orders against a max-term/max-CCI model, 5*10^4 cases per quick run.",
         level_note="Trusted: the consistent-world generator reflects Raft's guarantees; dragonboat reports (term, leader) pairs consistently.",
